@@ -675,6 +675,7 @@ func TestVerifC01(t *testing.T) {
 	c01Values(c, mc.Pick(c, 64, 1024), mc.Pick(c, 20000, 200000))
 	c01Keys(c, mc.Pick(c, 4, 5))
 	c01Long(c)
+	c01ValLengths(c, mc.Pick(c, 3, 4))
 	if code := c.Finish(); code != 0 {
 		os.Exit(code)
 	}
